@@ -30,6 +30,7 @@ package lib
 
 import (
 	"bytes"
+	"context"
 	"encoding/hex"
 	"errors"
 	"fmt"
@@ -50,6 +51,7 @@ import (
 	"github.com/refraction-networking/conjure/internal/verifhook"
 	"github.com/refraction-networking/conjure/internal/vlib"
 	"github.com/refraction-networking/conjure/pkg/core"
+	"github.com/refraction-networking/conjure/pkg/station/liveness"
 	"github.com/refraction-networking/conjure/pkg/station/log"
 	"github.com/refraction-networking/conjure/pkg/transports/wrapping/min"
 	"github.com/refraction-networking/conjure/pkg/transports/wrapping/prefix"
@@ -81,14 +83,30 @@ const c07Subnets = `
             Weight = 1
             RandomizeDstPort = true
             Subnets = ["192.122.192.0/24", "2001:48a8:687f:3::/64"]
+    [Networks.5]
+        Generation = 5
+        [[Networks.5.WeightedSubnets]]
+            Weight = 3
+            Subnets = ["192.122.193.0/24", "2001:48a8:687f:4::/64"]
+        [[Networks.5.WeightedSubnets]]
+            Weight = 1
+            Subnets = ["192.122.194.0/24"]
+        [[Networks.5.WeightedSubnets]]
+            Weight = 1
+            Subnets = ["2001:48a8:687f:5::/64"]
 `
 
 // generations of the table: number, known, has IPv4 subnets, has IPv6 subnets
+// (new entries are appended: the index is part of the replay format). bySecret: generation 5 has three weighted subnet sets —
+// dual-stack, IPv4 only, IPv6 only — and the client's secret draws one of them: whether a family can be built depends on the
+// secret; the three entries stand for the three draws, and the shared secret of the cell is chosen to fit (c07World.secretFor)
 var c07Gens = []struct {
 	gen        uint32
 	known      bool
 	has4, has6 bool
-}{{1, true, true, true}, {2, true, true, false}, {3, true, false, true}, {999, false, false, false}, {4, true, true, true}}
+	bySecret   bool
+}{{1, true, true, true, false}, {2, true, true, false, false}, {3, true, false, true, false}, {999, false, false, false, false}, {4, true, true, true, false},
+	{5, true, true, true, true}, {5, true, true, false, true}, {5, true, false, true, true}}
 
 // phantom blocklists of the table: nothing, every IPv4 phantom subnet, every IPv6 phantom subnet
 var c07Blocklists = [][]string{nil, {"192.122.0.0/16"}, {"2001:48a8:687f::/48"}}
@@ -193,7 +211,13 @@ var c07Overrides = []c07Override{
 	{name: "tparams-good", v6OK: true, tparams: 1},
 	{name: "tparams-bad", v6OK: true, tparams: 2},
 	{name: "v6=v4mapped-inside", v6: net.ParseIP("192.122.190.77").To16(), v6OK: false},
+	// phantoms on the loopback interface, for runs with the real (caching, dialing) liveness tester: a port with a listener
+	// (the phantom answers), another loopback address without one. The ports are set by c07Setup.
+	{name: "loopback-listener", port: &c07LoopbackPorts[0], v4: c07u32(0x7F000001), v6OK: true},
+	{name: "loopback-other-address", port: &c07LoopbackPorts[1], v4: c07u32(0x7F000002), v6OK: true},
 }
+
+var c07LoopbackPorts [2]uint32
 
 func (ov c07Override) present() bool {
 	return ov.port != nil || ov.v4 != nil || ov.v6 != nil || ov.tparams != 0
@@ -205,7 +229,74 @@ func (ov c07Override) v4Applied() bool { return ov.v4 != nil && *ov.v4 != 0 }
 type c07Station struct {
 	e4, e6, share bool
 	block         int
-	live          bool
+	live          bool // the boolean of the liveness verdict
+	lerr          int  // its error component (c07VerdictErr); 0 = the usual companion of the boolean
+	peer          int  // how the peer-station API answers a share request (c07PeerModes)
+}
+
+// the error component of a liveness verdict (live, err): the full product of the two booleans with these kinds is generated
+const c07VerdictKinds = 6
+
+var c07ErrOther = errors.New("connect: connection refused")
+
+func c07VerdictErr(live bool, kind int) error {
+	notLive := fmt.Errorf("%w %v", liveness.NotLive, 750*time.Millisecond)
+	switch kind {
+	case 1:
+		return nil
+	case 2:
+		return liveness.ErrCachedPhantom // answered from the cache of live / of not-live phantoms
+	case 3:
+		return c07ErrOther
+	case 4:
+		return context.DeadlineExceeded
+	case 5: // the companion of the OTHER boolean
+		if live {
+			return notLive
+		}
+		return liveness.ErrLiveHost
+	}
+	if live {
+		return liveness.ErrLiveHost
+	}
+	return notLive
+}
+
+// c07VerdictKind classifies the error a tester answered (the real, caching tester: its verdict is recorded, not scripted)
+func c07VerdictKind(live bool, err error) int {
+	switch {
+	case err == nil:
+		return 1
+	case errors.Is(err, liveness.ErrCachedPhantom):
+		return 2
+	case errors.Is(err, context.DeadlineExceeded) || errors.Is(err, context.Canceled):
+		return 4
+	case errors.Is(err, liveness.NotLive):
+		if live {
+			return 5
+		}
+		return 0
+	case errors.Is(err, liveness.ErrLiveHost):
+		if live {
+			return 0
+		}
+		return 5
+	}
+	return 3
+}
+
+// peer-station API behaviours: what happens to a share request
+var c07PeerModes = []string{"answers 200", "answers 404", "answers 503", "takes the request, closes without a reply", "slow, answers 200", "unreachable"}
+
+func (st c07Station) verdictChar() byte {
+	if st.lerr == 0 {
+		return vlib.B(st.live)[0]
+	}
+	v := 2 + (st.lerr-1)*2
+	if st.live {
+		v++
+	}
+	return "0123456789ab"[v]
 }
 
 // second message of the session
@@ -231,6 +322,7 @@ type c07Cell struct {
 	override         int
 	disableOv        bool // disable_registrar_overrides
 	dup              int  // what the second message of the session is
+	hand             bool // delivery: false = through the station's ingest worker (startIngestThread), true = parseRegMessage + ingestRegistration called directly (three quarters of the big decision table: it is cheaper)
 }
 
 // second returns the second message of the session
@@ -258,25 +350,58 @@ func (c c07Cell) second() c07Cell {
 }
 
 func (st c07Station) String() string {
-	return fmt.Sprintf("%s%s%s%d%s", vlib.B(st.e4), vlib.B(st.e6), vlib.B(st.share), st.block, vlib.B(st.live))
+	s := fmt.Sprintf("%s%s%s%d%c", vlib.B(st.e4), vlib.B(st.e6), vlib.B(st.share), st.block, st.verdictChar())
+	if st.peer != 0 {
+		s += strconv.Itoa(st.peer)
+	}
+	return s
+}
+
+// c07ParseVerdict reads the verdict character of a replay
+func c07ParseVerdict(ch byte) (live bool, lerr int, ok bool) {
+	v := strings.IndexByte("0123456789ab", ch)
+	if v < 0 {
+		return false, 0, false
+	}
+	if v < 2 {
+		return v == 1, 0, true
+	}
+	return v%2 == 1, 1 + (v-2)/2, true
 }
 
 func (c c07Cell) String() string {
-	return fmt.Sprintf("%s%s%s%s.%d.%d.%d.%d.%d.%s.%d.%d.%s.%d", vlib.B(c.garbage), vlib.B(c.payload), vlib.B(c.v4s), vlib.B(c.v6s), c.registrant, c.source, c.transport, c.gen, c.libver,
+	s := fmt.Sprintf("%s%s%s%s.%d.%d.%d.%d.%d.%s.%d.%d.%s.%d", vlib.B(c.garbage), vlib.B(c.payload), vlib.B(c.v4s), vlib.B(c.v6s), c.registrant, c.source, c.transport, c.gen, c.libver,
 		vlib.B(c.prescanned), c.covert, c.override, vlib.B(c.disableOv), c.dup)
+	if c.hand {
+		s += ".h"
+	}
+	return s
 }
 
-// c07ParseReplay reads `<station>/<cell>`; the cell has 9 (older replays) or 11 dot-separated fields.
+// c07ParseReplay reads `<station>/<cell>`; the cell has 9 (older replays) or 11 dot-separated fields, and `.h` for direct delivery.
 func c07ParseReplay(s string) (c07Station, c07Cell, error) {
 	var st c07Station
 	var c c07Cell
 	p := strings.Split(s, "/")
-	if len(p) != 2 || len(p[0]) != 5 {
+	if len(p) != 2 || (len(p[0]) != 5 && len(p[0]) != 6) {
 		return st, c, fmt.Errorf("bad replay %q", s)
 	}
 	b := func(ch byte) bool { return ch == '1' }
-	st = c07Station{e4: b(p[0][0]), e6: b(p[0][1]), share: b(p[0][2]), block: int(p[0][3] - '0'), live: b(p[0][4])}
+	st = c07Station{e4: b(p[0][0]), e6: b(p[0][1]), share: b(p[0][2]), block: int(p[0][3] - '0')}
+	var vok bool
+	if st.live, st.lerr, vok = c07ParseVerdict(p[0][4]); !vok {
+		return st, c, fmt.Errorf("bad replay %q: liveness verdict", s)
+	}
+	if len(p[0]) == 6 {
+		st.peer = int(p[0][5] - '0')
+		if st.peer < 0 || st.peer >= len(c07PeerModes) {
+			return st, c, fmt.Errorf("bad replay %q: peer behaviour", s)
+		}
+	}
 	f := strings.Split(p[1], ".")
+	if len(f) == 12 && f[11] == "h" {
+		c.hand, f = true, f[:11]
+	}
 	if (len(f) != 9 && len(f) != 11) || len(f[0]) != 4 {
 		return st, c, fmt.Errorf("bad replay %q", s)
 	}
@@ -294,7 +419,7 @@ func c07ParseReplay(s string) (c07Station, c07Cell, error) {
 		c.disableOv, c.dup = f[9] == "1", num(f[10])
 	}
 	if c.registrant < 0 || c.registrant >= len(c07Registrants) || c.source < 0 || c.source >= len(c07Sources) || c.transport < 0 || c.transport >= len(c07Transports) ||
-		c.gen < 0 || c.gen >= len(c07Gens) || c.covert < 0 || c.covert >= len(c07Coverts) || c.override < 0 || c.override >= len(c07Overrides) || c.dup < 0 || c.dup >= c07DupKinds || st.block > 2 {
+		c.gen < 0 || c.gen >= len(c07Gens) || c.covert < 0 || c.covert >= len(c07Coverts) || c.override < 0 || c.override >= len(c07Overrides) || c.dup < 0 || c.dup >= c07DupKinds || st.block < 0 || st.block > 2 {
 		return st, c, fmt.Errorf("bad replay %q: index out of range", s)
 	}
 	return st, c, nil
@@ -305,12 +430,13 @@ func c07ParseReplay(s string) (c07Station, c07Cell, error) {
 
 type c07Event struct {
 	seq     int
-	kind    byte // 'P' probe, 'S' share, 'A' announce, 'U' update
+	kind    byte // 'P' probe, 'S' share request received by the peer, 'T' share request that did not reach it, 'A' announce, 'U' update, 'X' panic in the ingest worker
 	phantom string
 	port    int
 	proto   int
 	body    []byte
 	live    bool // 'P': what the tester answered
+	lerr    int  // 'P': the kind of error it answered with
 }
 
 type c07Recorder struct {
@@ -346,30 +472,51 @@ func (r *c07Recorder) has(kind byte) bool {
 	return false
 }
 
-type c07Live struct {
-	rec  *c07Recorder
-	live *bool
-}
+// the liveness tester of the harness's stations: answers the scripted verdict (live, error kind) of the world — or hands the
+// question to the real tester set in the world (the caching tester of pkg/station/liveness) — and records probe and verdict
+type c07Live struct{ w *c07World }
 
 func (l c07Live) PhantomIsLive(addr string, port uint16) (bool, error) {
-	l.rec.add(c07Event{kind: 'P', phantom: addr, port: int(port), live: *l.live})
-	if *l.live {
-		return true, errors.New("phantom picked up the connection")
+	w := l.w
+	if w.realTester != nil {
+		live, err := w.realTester.PhantomIsLive(addr, port)
+		w.rec.add(c07Event{kind: 'P', phantom: addr, port: int(port), live: live, lerr: c07VerdictKind(live, err)})
+		return live, err
 	}
-	return false, errors.New("reached statistical timeout")
+	w.rec.add(c07Event{kind: 'P', phantom: addr, port: int(port), live: w.live, lerr: w.lerr})
+	return w.live, c07VerdictErr(w.live, w.lerr)
 }
 func (c07Live) PrintAndReset(*log.Logger) {}
 func (c07Live) PrintStats(*log.Logger)    {}
 func (c07Live) Reset()                    {}
 
-// peer-share stand-in: records the request body, answers 200
-type c07Peer struct{ rec *c07Recorder }
+// peer-share stand-in: records every request it RECEIVES ('S') and behaves as the world's peer mode says; a request that does
+// not reach it (unreachable peer) is recorded as an attempt ('T')
+type c07Peer struct{ w *c07World }
 
 func (p c07Peer) RoundTrip(req *http.Request) (*http.Response, error) {
 	body, _ := io.ReadAll(req.Body)
 	req.Body.Close()
-	p.rec.add(c07Event{kind: 'S', phantom: req.URL.String(), body: body})
-	return &http.Response{StatusCode: 200, Status: "200 OK", Proto: "HTTP/1.1", ProtoMajor: 1, ProtoMinor: 1, Header: http.Header{}, Body: io.NopCloser(bytes.NewReader(nil)), Request: req}, nil
+	answer := func(code int) (*http.Response, error) {
+		return &http.Response{StatusCode: code, Status: fmt.Sprintf("%d %s", code, http.StatusText(code)), Proto: "HTTP/1.1", ProtoMajor: 1, ProtoMinor: 1, Header: http.Header{}, Body: io.NopCloser(bytes.NewReader(nil)), Request: req}, nil
+	}
+	mode := p.w.peer
+	if mode == 5 {
+		p.w.rec.add(c07Event{kind: 'T', phantom: req.URL.String(), body: body})
+		return nil, &net.OpError{Op: "dial", Net: "tcp", Err: errors.New("connect: no route to host")}
+	}
+	p.w.rec.add(c07Event{kind: 'S', phantom: req.URL.String(), body: body})
+	switch mode {
+	case 1:
+		return answer(404)
+	case 2:
+		return answer(503)
+	case 3:
+		return nil, io.ErrUnexpectedEOF // the request was taken, the connection closed before any reply
+	case 4:
+		time.Sleep(2 * time.Millisecond)
+	}
+	return answer(200)
 }
 
 type c07Geo struct{}
@@ -409,12 +556,22 @@ func (o *c07Out) OracleFail(sig, what, replay string) {
 // ---------------------------------------------------------------------------------------------
 
 type c07World struct {
-	t    *testing.T
-	out  *c07Out
-	rec  *c07Recorder
-	live bool
-	rms  map[string]*RegistrationManager
-	base int // goroutines when idle
+	t            *testing.T
+	out          *c07Out
+	rec          *c07Recorder
+	live         bool            // the scripted liveness verdict …
+	lerr         int             // … and its error component
+	peer         int             // how the peer API behaves
+	realTester   liveness.Tester // when set: the tester that answers instead of the script
+	rms          map[string]*RegistrationManager
+	workers      map[*RegistrationManager]chan interface{} // the ingest worker of each manager is fed through this channel
+	base         int                                       // goroutines when idle
+	sharesMissed int                                       // expected share requests that did not come
+}
+
+// setStation scripts what the libraries around the station answer while the next message is ingested
+func (w *c07World) setStation(st c07Station) {
+	w.live, w.lerr, w.peer = st.live, st.lerr, st.peer
 }
 
 func c07Canon(ip []byte) string {
@@ -442,7 +599,7 @@ func (w *c07World) manager(st c07Station) *RegistrationManager {
 		w.t.Fatal("NewRegistrationManager returned nil")
 	}
 	rm.Logger = log.New(io.Discard, "", golog.Ldate)
-	rm.LivenessTester = c07Live{rec: w.rec, live: &w.live}
+	rm.LivenessTester = c07Live{w: w}
 	rm.GeoIP = c07Geo{}
 	if err := rm.AddTransport(pb.TransportType_Min, min.Transport{}); err != nil {
 		w.t.Fatal(err)
@@ -451,7 +608,39 @@ func (w *c07World) manager(st c07Station) *RegistrationManager {
 		w.t.Fatal(err)
 	}
 	w.rms[key] = rm
+	w.startWorker(rm)
 	return rm
+}
+
+// startWorker runs the station's real ingest worker (startIngestThread) for the manager, fed through its channel: messages are
+// delivered to the station the way the pipeline delivers them. A panic inside the worker is recorded ('X') and the worker
+// is started again.
+func (w *c07World) startWorker(rm *RegistrationManager) {
+	ch := make(chan interface{})
+	w.workers[rm] = ch
+	go func() {
+		for {
+			func() {
+				defer func() {
+					if r := recover(); r != nil {
+						w.rec.add(c07Event{kind: 'X', phantom: fmt.Sprint(r)})
+					}
+				}()
+				var wg sync.WaitGroup
+				wg.Add(1)
+				rm.startIngestThread(context.Background(), ch, &wg)
+			}()
+		}
+	}()
+}
+
+// deliver hands one wire message to the ingest worker and returns when the worker is done with it: the channel is unbuffered
+// and the worker takes the next message only after it finished the previous one, so it is done once it took a second, empty
+// message (an empty wrapper: no payload, nothing to ingest).
+func (w *c07World) deliver(rm *RegistrationManager, raw []byte) {
+	ch := w.workers[rm]
+	ch <- raw
+	ch <- []byte{}
 }
 
 // reset empties the registry (white-box) and re-installs the announce stubs.
@@ -476,13 +665,26 @@ func (w *c07World) reset(rm *RegistrationManager) {
 // above it without moving for a long stretch (a goroutine some library started lazily) becomes the
 // new idle level instead of an error.
 func (w *c07World) quiesce(expectShare bool) {
-	if expectShare && !w.rec.has('S') {
+	// The share request is a goroutine that ingestRegistration starts before it returns: while it is on its way the goroutine
+	// count is above the idle level. So the wait for an expected request ends early once the count has been at the idle level
+	// for a while (the request is not coming: a wrong expectation must not cost two seconds per cell — a change that drops
+	// whole messages made a quick run take longer than its time limit that way), and a run in which many expected requests
+	// did not come stops waiting for them at all.
+	seen := func() bool { return w.rec.has('S') || w.rec.has('T') }
+	if expectShare && !seen() && w.sharesMissed < 50 {
 		deadline := time.Now().Add(2 * time.Second)
-		for !w.rec.has('S') && time.Now().Before(deadline) {
+		idle := 0
+		for !seen() && time.Now().Before(deadline) && idle < 300 {
+			if runtime.NumGoroutine() <= w.base {
+				idle++
+			} else {
+				idle = 0
+			}
 			runtime.Gosched()
 			time.Sleep(10 * time.Microsecond)
 		}
-		if !w.rec.has('S') {
+		if !seen() {
+			w.sharesMissed++
 			w.out.Count("quiesce:expected-share-not-seen")
 		}
 	}
@@ -699,7 +901,7 @@ func (w *c07World) wire(rm *RegistrationManager, st c07Station, c c07Cell, secre
 	wire = fmt.Sprintf("M,%s,%s,%s,%s,%d,%d,%d,%s,%s,%s:%s:%s:%s:%d:%s:%s:%s:%s,%s,%s:%s",
 		vlib.B(c.payload), vlib.B(c2s.GetV4Support()), vlib.B(c2s.GetV6Support()), c07OptHex(rg.b), src, int(c2s.GetTransport()), libver,
 		vlib.B(c2s.GetFlags().GetPrescanned()), rr,
-		sel(false), sel(true), paramsOK, tpPort, protoN, vlib.B(geoOK), vlib.B(covertStr != ""), vlib.B(st.live), ident,
+		sel(false), sel(true), paramsOK, tpPort, protoN, vlib.B(geoOK), vlib.B(covertStr != ""), c07VerdictField(st), ident,
 		vlib.B(c2s.GetDisableRegistrarOverrides()), rrOK, rrPort)
 	return wire, selectorOK
 }
@@ -730,9 +932,12 @@ func (w *c07World) directBuild(rm *RegistrationManager, raw []byte) (fams [2]c07
 	return fams
 }
 
-// ingestOne sends one wire message through the real parseRegMessage + ingestRegistration and records what happened.
-// shareFam: which family's registration may be shared (its request is then waited for).
-func (w *c07World) ingestOne(rm *RegistrationManager, raw []byte, shareFam [2]bool, p *c07Pass) {
+// ingestOne hands one wire message to the station's real ingest worker (startIngestThread, fed through its channel) and
+// records what happened. What parseRegMessage answers for the message is observed by a separate call (the call has no effect
+// on the registry); everything else is what the worker did with the message. fams: the registrations the message yields
+// (direct construction), v4s: the client supports IPv4 (then the share request, if any, is the IPv4 registration's),
+// expectShare: a share request is expected (it is then waited for).
+func (w *c07World) ingestOne(rm *RegistrationManager, raw []byte, fams [2]c07Fam, v4s bool, expectShare bool, hand bool, p *c07Pass) {
 	var regs []*DecoyRegistration
 	var err error
 	func() {
@@ -752,50 +957,82 @@ func (w *c07World) ingestOne(rm *RegistrationManager, raw []byte, shareFam [2]bo
 		}
 	}
 	p.nregs = len(regs)
-	var evStrs []string
-	for _, reg := range regs {
-		if reg == nil {
-			continue
-		}
-		fi := 0
-		if reg.PhantomIp.To4() == nil {
-			fi = 1
-		}
-		func() {
-			defer func() {
-				if r := recover(); r != nil {
-					evStrs = append(evStrs, fmt.Sprintf("panic:%v", r))
-				}
-			}()
-			rm.ingestRegistration(reg)
-		}()
-		w.quiesce(shareFam[fi])
-		evs := w.rec.take()
-		p.evs = append(p.evs, evs...)
-		// canonical order within one registration: probes, shares, announcements (the share
-		// request runs in its own goroutine, so its position relative to the announcement is
-		// not fixed; its position relative to the probe is, and is checked by the oracle)
-		for _, k := range []byte{'P', 'S', 'A', 'U'} {
-			for _, e := range evs {
-				if e.kind != k {
+	w.rec.take()
+	switch {
+	case p.parse == "panic":
+	case hand:
+		// direct delivery: what the worker's loop body does with the answer of parseRegMessage, written out
+		if err == nil {
+			for _, reg := range regs {
+				if reg == nil {
 					continue
 				}
-				switch k {
-				case 'P':
+				func() {
+					defer func() {
+						if r := recover(); r != nil {
+							w.rec.add(c07Event{kind: 'X', phantom: fmt.Sprint(r)})
+						}
+					}()
+					rm.ingestRegistration(reg)
+				}()
+			}
+		}
+	default:
+		w.deliver(rm, raw)
+	}
+	w.quiesce(expectShare)
+	evs := w.rec.take()
+	p.evs = evs
+	// canonical order: per registration (IPv4 first) probes, share requests, announcements, updates (the share request runs
+	// in its own goroutine, so its position relative to the announcement is not fixed; its position relative to the probe
+	// is, and is checked by the oracle); then whatever concerns neither registration of the message
+	var evStrs []string
+	used := make([]bool, len(evs))
+	shareOwner := 1
+	if v4s {
+		shareOwner = 0
+	}
+	for fi, f := range fams {
+		if f.reg == nil {
+			continue
+		}
+		for _, k := range []byte{'P', 'S', 'A', 'U'} {
+			for i, e := range evs {
+				if used[i] {
+					continue
+				}
+				switch {
+				case k == 'P' && e.kind == 'P' && e.phantom == f.reg.PhantomIp.String():
 					evStrs = append(evStrs, fmt.Sprintf("P:%s:%d", c07Canon(net.ParseIP(e.phantom)), e.port))
-				case 'S':
+				case k == 'S' && (e.kind == 'S' || e.kind == 'T') && fi == shareOwner:
 					sh := &pb.C2SWrapper{}
 					if err := proto.Unmarshal(e.body, sh); err != nil {
 						evStrs = append(evStrs, "S:undecodable")
-						continue
+					} else {
+						evStrs = append(evStrs, fmt.Sprintf("S:%s:%d:%s", c07Canon(f.reg.PhantomIp), int(sh.GetRegistrationSource()), vlib.B(sh.GetRegistrationPayload().GetFlags().GetPrescanned())))
 					}
-					evStrs = append(evStrs, fmt.Sprintf("S:%s:%d:%s", c07Canon(reg.PhantomIp), int(sh.GetRegistrationSource()), vlib.B(sh.GetRegistrationPayload().GetFlags().GetPrescanned())))
-				case 'A':
+				case k == 'A' && e.kind == 'A' && e.phantom == c07Canon(f.reg.PhantomIp):
 					evStrs = append(evStrs, fmt.Sprintf("A:%s:%d:%d", e.phantom, e.port, e.proto))
-				case 'U':
+				case k == 'U' && e.kind == 'U' && e.phantom == c07Canon(f.reg.PhantomIp):
 					evStrs = append(evStrs, "U:"+e.phantom)
+				default:
+					continue
 				}
+				used[i] = true
 			}
+		}
+	}
+	for i, e := range evs {
+		if used[i] {
+			continue
+		}
+		switch e.kind {
+		case 'X':
+			evStrs = append(evStrs, "panic:"+e.phantom)
+		case 'S', 'T':
+			evStrs = append(evStrs, "S:?")
+		default:
+			evStrs = append(evStrs, fmt.Sprintf("%c:?:%s:%d", e.kind, e.phantom, e.port))
 		}
 	}
 	p.evsStr = strings.Join(evStrs, ",")
@@ -824,12 +1061,20 @@ func (w *c07World) famStates(rm *RegistrationManager, fams [2]c07Fam, p *c07Pass
 	p.state = strings.Join(ss, ",")
 }
 
+// the liveness verdict (and the peer's behaviour) as the model reads them: `<live>` or `<live>.<error kind>.<peer>`
+func c07VerdictField(st c07Station) string {
+	if st.lerr == 0 && st.peer == 0 {
+		return vlib.B(st.live)
+	}
+	return fmt.Sprintf("%s.%d.%d", vlib.B(st.live), st.lerr, st.peer)
+}
+
 // runCell executes one cell on the implementation; returns the model line, the implementation's
 // canonical answer, and evaluates the property oracle.
 func (w *c07World) runCell(st c07Station, c c07Cell, secret []byte) (string, string) {
 	rm := w.manager(st)
 	w.reset(rm)
-	w.live = st.live
+	w.setStation(st)
 	replay := "c07cell|" + st.String() + "/" + c.String() + "/" + hex.EncodeToString(secret)
 	cells := [2]c07Cell{c, c.second()}
 
@@ -849,6 +1094,10 @@ func (w *c07World) runCell(st c07Station, c c07Cell, secret []byte) (string, str
 	// ---- library verdicts for the model line (real calls)
 	cfgLine := fmt.Sprintf("%s,%s,%s,%d %d,%s", vlib.B(st.e4), vlib.B(st.e6), vlib.B(st.share), int(pb.TransportType_Min), int(pb.TransportType_Prefix), c07BlocklistLine(st.block))
 	wire1, selOK := w.wire(rm, st, cells[0], secret)
+	fits := w.genFits(rm, c, secret)
+	if !fits {
+		w.out.Count("generation-by-secret:replayed-secret-does-not-fit")
+	}
 	wire2 := "D" // D = the same message again
 	if c.dup != c07DupSame && !c.garbage {
 		wire2, _ = w.wire(rm, st, cells[1], secret)
@@ -870,11 +1119,11 @@ func (w *c07World) runCell(st c07Station, c c07Cell, secret []byte) (string, str
 			fresh := pi == 0 || !passes[0].fam[fi].tracked
 			shareFam[fi] = fresh && c07Expect(st, cells[pi], v6).mayShare
 		}
-		w.ingestOne(rm, raws[pi], shareFam, p)
+		w.ingestOne(rm, raws[pi], fams, cells[pi].v4s && cells[pi].payload && !cells[pi].garbage, shareFam[0] || shareFam[1], c.hand, p)
 		w.famStates(rm, fams, p)
 		// every registration that lookups return now holds values that passed every admission condition
 		hist = append(hist, p.evs...)
-		if selOK {
+		if selOK && fits {
 			w.oracleStored(st, rm, hist, replay, []string{"", "second message: "}[pi])
 		}
 	}
@@ -892,7 +1141,7 @@ func (w *c07World) runCell(st c07Station, c c07Cell, secret []byte) (string, str
 		// the assumption SelectorFam does not hold for this cell: the expectations below are not
 		// defined (the correspondence still is); the selector itself is C14's subject
 		w.out.Count("assumption-broken:selector-wrong-family")
-	} else {
+	} else if fits {
 		w.oracle(st, cells, fams, passes, replay)
 	}
 	return model, impl
@@ -1312,18 +1561,49 @@ func (w *c07World) objects(rm *RegistrationManager) string {
 
 type c07Msg struct {
 	cell c07Cell
-	live bool // what the liveness tester answers while this message is ingested
-	sess int  // which of the two shared secrets
+	live bool // what the liveness tester answers while this message is ingested (with the real tester: not scripted) …
+	lerr int  // … and the error component of that verdict
+	peer int  // how the peer API behaves while this message is ingested
+	sess int  // which of the shared secrets (clients)
 }
 
-func (w *c07World) runSeq(st c07Station, msgs []c07Msg, secrets [2][]byte) (string, string) {
+const c07MaxSessions = 4
+
+func (m c07Msg) String() string {
+	s := fmt.Sprintf("%s:%c%d", m.cell.String(), c07Station{live: m.live, lerr: m.lerr}.verdictChar(), m.sess)
+	if m.peer != 0 {
+		s += strconv.Itoa(m.peer)
+	}
+	return s
+}
+
+// real: the liveness verdicts are not scripted but answered by a fresh instance of the real caching tester of
+// pkg/station/liveness (live and not-live verdicts cached for an hour), which dials the phantom: the verdict of each probe is
+// recorded and handed to the model as that message's library verdict.
+func (w *c07World) runSeq(st c07Station, msgs []c07Msg, secrets [][]byte, real bool) (string, string) {
 	rm := w.manager(st)
 	w.reset(rm)
 	var ms []string
-	for _, m := range msgs {
-		ms = append(ms, fmt.Sprintf("%s:%s%d", m.cell.String(), vlib.B(m.live), m.sess))
+	for i := range msgs {
+		// a generation whose subnet set is drawn by the secret: the entry that fits this client's secret
+		msgs[i].cell = w.fitGen(rm, msgs[i].cell, secrets[msgs[i].sess])
+		ms = append(ms, msgs[i].String())
 	}
-	replay := "c07seq|" + st.String() + "/" + strings.Join(ms, "+") + "/" + hex.EncodeToString(secrets[0]) + "/" + hex.EncodeToString(secrets[1])
+	st.live, st.lerr, st.peer = false, 0, 0
+	replay := "c07seq|"
+	if real {
+		replay = "c07seqr|"
+		tester, err := liveness.New(&liveness.Config{CacheDuration: "1h", CacheDurationNonLive: "1h"})
+		if err != nil {
+			w.t.Fatal(err)
+		}
+		w.realTester = tester
+		defer func() { w.realTester = nil }()
+	}
+	replay += st.String() + "/" + strings.Join(ms, "+")
+	for _, sec := range secrets {
+		replay += "/" + hex.EncodeToString(sec)
+	}
 	cfgLine := fmt.Sprintf("%s,%s,%s,%d %d,%s", vlib.B(st.e4), vlib.B(st.e6), vlib.B(st.share), int(pb.TransportType_Min), int(pb.TransportType_Prefix), c07BlocklistLine(st.block))
 	model := "c07s|" + cfgLine
 	var impls []string
@@ -1333,8 +1613,8 @@ func (w *c07World) runSeq(st c07Station, msgs []c07Msg, secrets [2][]byte) (stri
 	for j, m := range msgs {
 		c, secret := m.cell, secrets[m.sess]
 		stj := st
-		stj.live = m.live
-		w.live = m.live
+		stj.live, stj.lerr, stj.peer = m.live, m.lerr, m.peer
+		w.setStation(stj)
 		tag := fmt.Sprintf("message %d of %d: ", j+1, len(msgs))
 		var raw []byte
 		if c.garbage {
@@ -1343,6 +1623,30 @@ func (w *c07World) runSeq(st c07Station, msgs []c07Msg, secrets [2][]byte) (stri
 			var err error
 			if raw, err = proto.Marshal(c.wrapper(secret)); err != nil {
 				w.t.Fatal(err)
+			}
+		}
+		var fams [2]c07Fam
+		if !c.garbage {
+			fams = w.directBuild(rm, raw)
+		}
+		// the state of this message's registrations before it is ingested
+		var before, pass c07Pass
+		w.famStates(rm, fams, &before)
+		var shareFam [2]bool
+		for fi, v6 := range []bool{false, true} {
+			shareFam[fi] = !before.fam[fi].tracked && c07Expect(stj, c, v6).mayShare
+		}
+		w.ingestOne(rm, raw, fams, c.v4s && c.payload && !c.garbage, !real && (shareFam[0] || shareFam[1]), c.hand, &pass)
+		w.famStates(rm, fams, &pass)
+		hist = append(hist, pass.evs...)
+		if real {
+			// the verdict the real tester answered while this message was ingested (none: the model does not ask either)
+			stj.live, stj.lerr = false, 0
+			for _, e := range pass.evs {
+				if e.kind == 'P' {
+					stj.live, stj.lerr = e.live, e.lerr
+					w.out.Count(fmt.Sprintf("real-tester:verdict:%v:%d", e.live, e.lerr))
+				}
 			}
 		}
 		wire, selOK := w.wire(rm, stj, c, secret)
@@ -1360,21 +1664,6 @@ func (w *c07World) runSeq(st c07Station, msgs []c07Msg, secrets [2][]byte) (stri
 			}
 			model += "|" + wire + ",x" + hex.EncodeToString([]byte(cov)) + "," + resolved
 		}
-		var fams [2]c07Fam
-		if !c.garbage {
-			fams = w.directBuild(rm, raw)
-		}
-		// the state of this message's registrations before it is ingested
-		var before, pass c07Pass
-		w.famStates(rm, fams, &before)
-		var shareFam [2]bool
-		for fi, v6 := range []bool{false, true} {
-			shareFam[fi] = !before.fam[fi].tracked && c07Expect(stj, c, v6).mayShare
-		}
-		w.rec.take()
-		w.ingestOne(rm, raw, shareFam, &pass)
-		w.famStates(rm, fams, &pass)
-		hist = append(hist, pass.evs...)
 		k := "-,-"
 		if !c.garbage {
 			k = fams[0].kind + "," + fams[1].kind
@@ -1415,6 +1704,52 @@ func c07SeqKind(before, after c07FamState, f c07Fam) string {
 		return "new-dropped"
 	}
 	return "new-not-tracked" // not attempted (family not enabled / not supported), or refused by ValidateRegistration
+}
+
+// genFits: does the client's secret draw, in a generation whose subnet set depends on it, the set this table entry stands for
+// (asked of the real selector: which families it can select from for this secret)
+func (w *c07World) genFits(rm *RegistrationManager, c c07Cell, secret []byte) bool {
+	g := c07Gens[c.gen]
+	if !g.bySecret || c.garbage {
+		return true
+	}
+	keys, err := core.GenSharedKeys(uint(c.libver), secret, c07Transports[c.transport].tt)
+	if err != nil {
+		w.t.Fatal(err)
+	}
+	_, err4 := rm.PhantomSelector.Select(keys.ConjureSeed, uint(g.gen), uint(c.libver), false)
+	_, err6 := rm.PhantomSelector.Select(keys.ConjureSeed, uint(g.gen), uint(c.libver), true)
+	return (err4 == nil) == g.has4 && (err6 == nil) == g.has6
+}
+
+// fitGen replaces a bySecret generation entry by the entry of the same generation that fits the secret
+func (w *c07World) fitGen(rm *RegistrationManager, c c07Cell, secret []byte) c07Cell {
+	if !c07Gens[c.gen].bySecret || w.genFits(rm, c, secret) {
+		return c
+	}
+	for i, g := range c07Gens {
+		d := c
+		d.gen = i
+		if g.bySecret && g.gen == c07Gens[c.gen].gen && w.genFits(rm, d, secret) {
+			return d
+		}
+	}
+	w.out.Count("generation-by-secret:no-entry-fits")
+	return c
+}
+
+// secretFor draws the shared secret of a cell: any 32 bytes — for a bySecret generation entry, the first draw that fits it
+func (w *c07World) secretFor(r *vlib.Rand, c c07Cell) []byte {
+	rm := w.manager(c07Station{e4: true, e6: true})
+	for i := 0; ; i++ {
+		secret := r.Bytes(32)
+		if w.genFits(rm, c, secret) {
+			return secret
+		}
+		if i > 2000 {
+			w.t.Fatalf("no secret draws the subnet set of generation entry %d", c.gen)
+		}
+	}
 }
 
 // c07Norm: NewRegistrationC2SWrapper writes the registrar's transport parameters into the payload; parseRegMessage never
@@ -1506,7 +1841,7 @@ func (s *c07Sched) yield(string) {
 func (w *c07World) runConcurrent(st c07Station, c c07Cell, secret []byte, schedule []int) {
 	rm := w.manager(st)
 	w.reset(rm)
-	w.live = st.live
+	w.setStation(st)
 	var ss []string
 	for _, x := range schedule {
 		ss = append(ss, strconv.Itoa(x))
@@ -1650,9 +1985,31 @@ func c07Setup(t *testing.T, out *vlib.Out) *c07World {
 		t.Fatal(err)
 	}
 	os.Setenv("PHANTOM_SUBNET_LOCATION", path)
-	w := &c07World{t: t, out: &c07Out{Out: out, perSig: map[string]int{}}, rec: &c07Recorder{}, rms: map[string]*RegistrationManager{}}
-	http.DefaultTransport = c07Peer{rec: w.rec}
-	http.DefaultClient.Transport = c07Peer{rec: w.rec}
+	w := &c07World{t: t, out: &c07Out{Out: out, perSig: map[string]int{}}, rec: &c07Recorder{}, rms: map[string]*RegistrationManager{}, workers: map[*RegistrationManager]chan interface{}{}}
+	http.DefaultTransport = c07Peer{w: w}
+	http.DefaultClient.Transport = c07Peer{w: w}
+	// loopback phantoms for the runs with the real liveness tester: a listener that takes every connection and closes it, and
+	// a port on another loopback address that nobody listens on
+	ln, err := net.Listen("tcp4", "127.0.0.1:0")
+	if err != nil {
+		t.Fatal(err)
+	}
+	go func() {
+		for {
+			conn, err := ln.Accept()
+			if err != nil {
+				return
+			}
+			conn.Close()
+		}
+	}()
+	c07LoopbackPorts[0] = uint32(ln.Addr().(*net.TCPAddr).Port)
+	if ln2, err := net.Listen("tcp4", "127.0.0.2:0"); err == nil {
+		c07LoopbackPorts[1] = uint32(ln2.Addr().(*net.TCPAddr).Port)
+		ln2.Close()
+	} else {
+		c07LoopbackPorts[1] = 9
+	}
 	// create every manager and touch the package-level helpers that start goroutines lazily before
 	// the idle goroutine count is taken
 	Stat()
@@ -1688,7 +2045,10 @@ func TestVerifC07(t *testing.T) {
 		return
 	}
 	r := vlib.NewRand("C07")
-	thorough := vlib.Tier() == "thorough" || os.Getenv("VERIF_SEARCH") == "1"
+	// the targeted search after a broken proof / correspondence (VERIF_SEARCH=1, further seeds) runs the quick tables — they
+	// enumerate every value of every dimension — with four times the random budgets (vlib.Budget), not the thorough tables:
+	// two thorough runs took a quarter of an hour and found nothing the quick tables do not reach
+	thorough := vlib.Tier() == "thorough"
 
 	var stations []c07Station
 	for _, e4 := range []bool{true, false} {
@@ -1696,7 +2056,7 @@ func TestVerifC07(t *testing.T) {
 			for _, share := range []bool{false, true} {
 				for block := 0; block < 3; block++ {
 					for _, live := range []bool{false, true} {
-						stations = append(stations, c07Station{e4, e6, share, block, live})
+						stations = append(stations, c07Station{e4: e4, e6: e6, share: share, block: block, live: live})
 					}
 				}
 			}
@@ -1716,7 +2076,7 @@ func TestVerifC07(t *testing.T) {
 	ncell := 0
 	run := func(st c07Station, c c07Cell) {
 		ncell++
-		m, i := w.runCell(st, c, c07Secret(r))
+		m, i := w.runCell(st, c, w.secretFor(r, c))
 		out.Case(m, i, true)
 		out.Count("parse:" + strings.SplitN(strings.SplitN(i, ";", 3)[1], "=", 2)[0])
 		out.Count(fmt.Sprintf("second-message:%d", c.dup))
@@ -1734,6 +2094,65 @@ func TestVerifC07(t *testing.T) {
 		run(st, c07Cell{garbage: true})
 		for _, src := range []int{0, 1, 3} {
 			run(st, c07Cell{payload: false, v4s: true, v6s: true, registrant: 1, source: src, libver: 4})
+		}
+	}
+
+	// ---- one family cannot be built, the other is fine (dual-stack client, IPv4 registrant): the buildable family must be
+	// admitted. Ways to get there: a generation with subnets of one family only; a generation whose weighted subnet set is
+	// drawn by the client's secret (entries 5-7 of c07Gens: the secret is chosen so that the IPv4-only / IPv6-only set is
+	// drawn); a registrar override that is not an address of one family; old library versions on these.
+	for _, st := range []c07Station{{e4: true, e6: true}, {e4: true, e6: true, share: true}, {e4: true, e6: true, share: true, block: 1}, {e4: true, e6: true, block: 2}} {
+		for _, src := range []int{0, 1} {
+			b := c07Cell{payload: true, v4s: true, v6s: true, registrant: 1, source: src, transport: 0, gen: 0, libver: 4, covert: 0}
+			for _, g := range []int{1, 2, 5, 6, 7} {
+				for _, lv := range []uint32{4, 2} {
+					for _, tr := range []int{0, 3} {
+						c := b
+						c.gen, c.libver, c.transport = g, lv, tr
+						run(st, c)
+						c.prescanned = true
+						run(st, c)
+					}
+				}
+			}
+			for _, ov := range []int{2, 4, 9, 12} {
+				c := b
+				c.override = ov
+				run(st, c)
+				c.gen = 4
+				run(st, c)
+			}
+			c := b
+			c.registrant = 2 // IPv6 registrant: no IPv4 registration is attempted at all, the IPv6 one is admitted
+			run(st, c)
+		}
+	}
+
+	// ---- the liveness verdict is a pair: both booleans with every kind of error (none, ErrCachedPhantom — served from the
+	// tester's cache —, another error, a context error, the other boolean's usual companion), on every station, from admitted
+	// base cells; and the peer's behaviour on every sharing station
+	for _, st := range stations {
+		for lerr := 1; lerr < c07VerdictKinds; lerr++ {
+			st.lerr = lerr
+			for _, sup := range [][2]bool{{true, true}, {true, false}, {false, true}} {
+				for _, src := range []int{0, 1} {
+					for _, ps := range []bool{false, true} {
+						run(st, c07Cell{payload: true, v4s: sup[0], v6s: sup[1], registrant: 1, source: src, transport: 0, gen: 0, libver: 4, covert: 0, prescanned: ps, dup: ncell % c07DupKinds})
+					}
+				}
+			}
+		}
+		st.lerr = 0
+		if !st.share {
+			continue
+		}
+		for peer := 1; peer < len(c07PeerModes); peer++ {
+			st.peer = peer
+			for _, sup := range [][2]bool{{true, true}, {true, false}, {false, true}} {
+				for _, srcps := range [][2]int{{1, 0}, {1, 1}, {0, 0}, {2, 1}} {
+					run(st, c07Cell{payload: true, v4s: sup[0], v6s: sup[1], registrant: 1, source: srcps[0], transport: 0, gen: 0, libver: 4, covert: 0, prescanned: srcps[1] == 1, dup: ncell % c07DupKinds})
+				}
+			}
 		}
 	}
 
@@ -1833,7 +2252,7 @@ func TestVerifC07(t *testing.T) {
 	// both orders (base first: the later message differs from the one that was admitted; base second: a message that was
 	// dropped or rejected is followed by one that would pass), with the liveness verdict of the later message flipped as well.
 	runSeq := func(st c07Station, msgs []c07Msg, secrets [2][]byte) {
-		m, i := w.runSeq(st, msgs, secrets)
+		m, i := w.runSeq(st, msgs, secrets[:], false)
 		out.Case(m, i, true)
 		out.Count(fmt.Sprintf("sequence:length-%d", len(msgs)))
 	}
@@ -1879,6 +2298,8 @@ func TestVerifC07(t *testing.T) {
 							if (thorough && seqCore(st)) || dim == 2 || dim == 5 {
 								runSeq(st, []c07Msg{{cell: b}, {cell: m, live: true}}, sec)
 								runSeq(st, []c07Msg{{cell: b, live: true}, {cell: m}}, sec)
+								runSeq(st, []c07Msg{{cell: b, live: true, lerr: 2}, {cell: m, lerr: 2}}, sec)
+								runSeq(st, []c07Msg{{cell: b, peer: 2}, {cell: m, peer: 3}}, sec)
 								runSeq(st, []c07Msg{{cell: b}, {cell: m}, {cell: b}}, sec)
 								runSeq(st, []c07Msg{{cell: m}, {cell: b}, {cell: m}}, sec)
 							}
@@ -1925,7 +2346,17 @@ func TestVerifC07(t *testing.T) {
 		}
 		b := randCell()
 		n := []int{1, 2, 2, 2, 2, 3, 3, 3, 3, 3}[r.Intn(10)]
-		msgs := []c07Msg{{cell: b, live: r.Chance(1, 5)}}
+		verdict := func(m *c07Msg, liveOneIn int) {
+			m.live = r.Chance(1, liveOneIn)
+			if r.Chance(1, 3) {
+				m.lerr = r.Intn(c07VerdictKinds)
+			}
+			if r.Chance(1, 3) {
+				m.peer = r.Intn(len(c07PeerModes))
+			}
+		}
+		msgs := []c07Msg{{cell: b}}
+		verdict(&msgs[0], 5)
 		for len(msgs) < n {
 			m := b
 			changed := 0
@@ -1944,9 +2375,41 @@ func TestVerifC07(t *testing.T) {
 			if r.Chance(1, 8) {
 				sess = 1
 			}
-			msgs = append(msgs, c07Msg{cell: m, live: r.Chance(1, 4), sess: sess})
+			msgs = append(msgs, c07Msg{cell: m, sess: sess})
+			verdict(&msgs[len(msgs)-1], 4)
 		}
 		runSeq(st, msgs, [2][]byte{c07Secret(r), c07Secret(r)})
+	}
+
+	// ---- the real caching liveness tester over histories of several clients on one phantom: client A registers on a phantom
+	// that answers (a listener on the loopback interface; the phantom address comes from a registrar override), is dropped
+	// and the verdict is cached; client B (another secret) registers on the same phantom while the verdict is cached — the
+	// tester answers (true, ErrCachedPhantom); B once more; client C arrives pre-scanned (no probe); client D on another
+	// loopback address (nobody listens: the dial is refused, which the tester reads as an answer). Each probe that is really
+	// sent takes the tester 750 ms, so there are few of these runs.
+	nReal := 0
+	for _, st := range []c07Station{{e4: true, e6: true, share: true}, {e4: true, e6: true}, {e4: true, e6: false, share: true}, {e4: true, e6: true, share: true, block: 2}} {
+		for _, src := range []int{1, 0, 2} {
+			for _, sup := range [][2]bool{{true, true}, {true, false}} {
+				if nReal >= vlib.Budget(2, 10) {
+					continue
+				}
+				nReal++
+				b := c07Cell{payload: true, v4s: sup[0], v6s: sup[1], registrant: 1, source: src, transport: 0, gen: 0, libver: 4, covert: 0, override: 13}
+				ps, other, cov := b, b, b
+				ps.prescanned = true
+				other.override = 14
+				cov.covert = 3
+				msgs := []c07Msg{{cell: b, sess: 0}, {cell: b, sess: 1}, {cell: cov, sess: 1}, {cell: ps, sess: 2}, {cell: b, sess: 3}}
+				if nReal%2 == 0 {
+					msgs = append(msgs, c07Msg{cell: other, sess: 3})
+				}
+				secrets := [][]byte{c07Secret(r), c07Secret(r), c07Secret(r), c07Secret(r)}
+				m, i := w.runSeq(st, msgs, secrets, true)
+				out.Case(m, i, true)
+				out.Count("real-tester:histories")
+			}
+		}
 	}
 
 	// ---- the table; the second message of the session cycles through its kinds
@@ -1955,12 +2418,12 @@ func TestVerifC07(t *testing.T) {
 			for _, rg := range pick(4, len(c07Registrants)) {
 				for _, src := range pick(2, 3) {
 					for _, tr := range pick(2, len(c07Transports)) {
-						for _, g := range pick(4, len(c07Gens)) {
+						for _, g := range pick(4, 5) {
 							for _, ps := range []bool{false, true} {
 								for _, cv := range pick(2, 3) {
-									for _, ov := range pick(3, 5) {
+									for _, ov := range pick(3, 5) { // (the table uses the first five overrides)
 										run(st, c07Cell{payload: true, v4s: sup[0], v6s: sup[1], registrant: rg, source: src, transport: tr, gen: g, libver: 4, prescanned: ps, covert: cv, override: ov,
-											dup: ncell % c07DupKinds})
+											dup: ncell % c07DupKinds, hand: ncell%4 != 0})
 									}
 								}
 							}
@@ -1982,7 +2445,7 @@ func TestVerifC07(t *testing.T) {
 									for cv := 0; cv < 2; cv++ {
 										for ov := 0; ov < 3; ov++ {
 											run(st, c07Cell{payload: true, v4s: sup[0], v6s: sup[1], registrant: rg, source: src, transport: tr, gen: g, libver: 4, prescanned: ps, covert: cv, override: ov,
-												dup: ncell % c07DupKinds})
+												dup: ncell % c07DupKinds, hand: ncell%4 != 0})
 										}
 									}
 								}
@@ -2033,16 +2496,17 @@ func c07Replay(w *c07World, path string) {
 				p[3], st.e4, st.e6, st.share, c07Blocklists[st.block], st.live, c.v4s, c.v6s, c07Sources[c.source], c.prescanned, c07Coverts[c.covert].addr)
 			continue
 		}
-		if strings.HasPrefix(line, "c07seq|") {
-			p := strings.Split(strings.TrimPrefix(line, "c07seq|"), "/")
-			if len(p) != 4 {
+		if strings.HasPrefix(line, "c07seq|") || strings.HasPrefix(line, "c07seqr|") {
+			real := strings.HasPrefix(line, "c07seqr|")
+			p := strings.Split(line[strings.Index(line, "|")+1:], "/")
+			if len(p) < 4 || len(p) > 2+c07MaxSessions {
 				w.t.Fatalf("bad replay line %q", line)
 			}
 			var st c07Station
 			var msgs []c07Msg
 			for _, ms := range strings.Split(p[1], "+") {
 				f := strings.Split(ms, ":")
-				if len(f) != 2 || len(f[1]) != 2 || f[1][1] < '0' || f[1][1] > '1' {
+				if len(f) != 2 || len(f[1]) < 2 || len(f[1]) > 3 {
 					w.t.Fatalf("bad replay line %q", line)
 				}
 				var c c07Cell
@@ -2050,13 +2514,31 @@ func c07Replay(w *c07World, path string) {
 				if st, c, err = c07ParseReplay(p[0] + "/" + f[0]); err != nil {
 					w.t.Fatal(err)
 				}
-				msgs = append(msgs, c07Msg{cell: c, live: f[1][0] == '1', sess: int(f[1][1] - '0')})
+				m := c07Msg{cell: c, sess: int(f[1][1] - '0')}
+				var ok bool
+				if m.live, m.lerr, ok = c07ParseVerdict(f[1][0]); !ok || m.sess < 0 || m.sess >= len(p)-2 {
+					w.t.Fatalf("bad replay line %q", line)
+				}
+				if len(f[1]) == 3 {
+					if m.peer = int(f[1][2] - '0'); m.peer < 0 || m.peer >= len(c07PeerModes) {
+						w.t.Fatalf("bad replay line %q", line)
+					}
+				}
+				msgs = append(msgs, m)
 			}
-			var secrets [2][]byte
-			secrets[0], _ = hex.DecodeString(p[2])
-			secrets[1], _ = hex.DecodeString(p[3])
-			m, i := w.runSeq(st, msgs, secrets)
+			var secrets [][]byte
+			for _, h := range p[2:] {
+				sec, err := hex.DecodeString(h)
+				if err != nil {
+					w.t.Fatal(err)
+				}
+				secrets = append(secrets, sec)
+			}
+			m, i := w.runSeq(st, msgs, secrets, real)
 			w.out.Case(m, i, true)
+			if real {
+				fmt.Println("REPLAY liveness verdicts: answered by the real caching tester of pkg/station/liveness (loopback phantoms), not scripted")
+			}
 			fmt.Printf("REPLAY sequence of %d message(s); station: v4=%v v6=%v share=%v blocklist=%v covert blocklist=%s\n", len(msgs), st.e4, st.e6, st.share, c07Blocklists[st.block], c07CovertBlocklist)
 			for k, mm := range msgs {
 				cc := mm.cell
@@ -2064,8 +2546,8 @@ func c07Replay(w *c07World, path string) {
 					fmt.Printf("REPLAY message %d: undecodable bytes\n", k+1)
 					continue
 				}
-				fmt.Printf("REPLAY message %d: session=%d liveness-verdict=%v payload=%v v4support=%v v6support=%v registrant=%s source=%s transport=%s generation=%d libver=%d prescanned=%v covert=%q override=%s disable_registrar_overrides=%v\n",
-					k+1, mm.sess, mm.live, cc.payload, cc.v4s, cc.v6s, c07Registrants[cc.registrant].name, c07Sources[cc.source], c07Transports[cc.transport].name, c07Gens[cc.gen].gen, cc.libver, cc.prescanned, c07Coverts[cc.covert].addr, c07Overrides[cc.override].name, cc.disableOv)
+				fmt.Printf("REPLAY message %d: session=%d liveness-verdict=(%v, %v) peer=%q payload=%v v4support=%v v6support=%v registrant=%s source=%s transport=%s generation=%d libver=%d prescanned=%v covert=%q override=%s disable_registrar_overrides=%v\n",
+					k+1, mm.sess, mm.live, c07VerdictErr(mm.live, mm.lerr), c07PeerModes[mm.peer], cc.payload, cc.v4s, cc.v6s, c07Registrants[cc.registrant].name, c07Sources[cc.source], c07Transports[cc.transport].name, c07Gens[cc.gen].gen, cc.libver, cc.prescanned, c07Coverts[cc.covert].addr, c07Overrides[cc.override].name, cc.disableOv)
 			}
 			fmt.Println("REPLAY model-line:", m)
 			for k, a := range strings.Split(i, "|") {
@@ -2087,7 +2569,7 @@ func c07Replay(w *c07World, path string) {
 		secret, _ := hex.DecodeString(p[2])
 		m, i := w.runCell(st, c, secret)
 		w.out.Case(m, i, true)
-		fmt.Printf("REPLAY station: v4=%v v6=%v share=%v blocklist=%v live=%v\n", st.e4, st.e6, st.share, c07Blocklists[st.block], st.live)
+		fmt.Printf("REPLAY station: v4=%v v6=%v share=%v blocklist=%v liveness-verdict=(%v, %v) peer=%q; messages are delivered through the ingest worker (startIngestThread)\n", st.e4, st.e6, st.share, c07Blocklists[st.block], st.live, c07VerdictErr(st.live, st.lerr), c07PeerModes[st.peer])
 		for k, cc := range []c07Cell{c, c.second()} {
 			fmt.Printf("REPLAY message %d: v4support=%v v6support=%v registrant=%s source=%s transport=%s generation=%d libver=%d prescanned=%v covert=%q override=%s disable_registrar_overrides=%v\n",
 				k+1, cc.v4s, cc.v6s, c07Registrants[cc.registrant].name, c07Sources[cc.source], c07Transports[cc.transport].name, c07Gens[cc.gen].gen, cc.libver, cc.prescanned, c07Coverts[cc.covert].addr, c07Overrides[cc.override].name, cc.disableOv)
